@@ -519,6 +519,30 @@ theorem step_refines {s : St} (hinv : Inv s) (op : Op) (hv : Spec.valid op = tru
     simp only [step, toBool, Spec.step, Refines]
     refine ⟨⟨hc, ht⟩, trivial, ?_, trivial⟩
     rw [hi]; simp [abs]
+  | fswap i j =>
+    -- the free function calls the member: the same thunk sequence
+    by_cases hij : i = j
+    · subst hij
+      simp only [step, swap, if_true, bind, Except.bind, Spec.step, Refines]
+      refine ⟨⟨hc, ht⟩, ?_, trivial, trivial⟩
+      abs_pt i, i
+    · have hne : Addr.obj i ≠ Addr.obj j := by intro h; cases h; exact hij rfl
+      have e1 := swap_ok hc ht (obj_ne_tmp i) (obj_ne_tmp j) hne
+      simp only [step, bind, Except.bind, e1, Spec.step, Refines]
+      refine ⟨⟨?_, ?_⟩, ?_, trivial, trivial⟩
+      · inv_pt hc i, j
+      · simp [upd]
+      · abs_pt i, j
+  | eqNull i =>
+    have hi := hc (.obj i)
+    simp only [step, toBool, Spec.step, Refines]
+    refine ⟨⟨hc, ht⟩, trivial, ?_, trivial⟩
+    rw [hi]; cases hm : s.mem (.obj i) <;> simp [abs, hm]
+  | neNull i =>
+    have hi := hc (.obj i)
+    simp only [step, toBool, Spec.step, Refines]
+    refine ⟨⟨hc, ht⟩, trivial, ?_, trivial⟩
+    rw [hi]; simp [abs]
 
 
 example : Inv St.init ∧ Spec.valid (.ctorCopy 0 1 false) = true := ⟨inv_init, rfl⟩
@@ -638,5 +662,108 @@ theorem assign_equivalent {s : St} (hinv : Inv s) (i j : Nat) (conv : Bool) :
     refine ⟨s', h1, h2, ?_, ?_⟩
     · simp [h3, Spec.step, Spec.set]
     · intro hij; simp [h3, Spec.step, Spec.set, Ne.symm hij]
+
+/-- the free `swap(lhs, rhs)` exchanges the targets exactly as the member does -/
+theorem fswap_exchanges {s : St} (hinv : Inv s) (i j : Nat) :
+    ∃ s', step s (.fswap i j) = .ok (s', .unit, []) ∧ Inv s' ∧
+      abs s' i = abs s j ∧ abs s' j = abs s i ∧ ∀ k, k ≠ i → k ≠ j → abs s' k = abs s k := by
+  obtain ⟨s', h1, h2, h3⟩ := refines_ok (step_refines hinv (.fswap i j) rfl)
+  refine ⟨s', h1, h2, ?_, ?_, ?_⟩
+  · by_cases h : i = j <;> simp [h3, Spec.step, Spec.set, h]
+  · simp [h3, Spec.step, Spec.set]
+  · intro k hk hkj; simp [h3, Spec.step, Spec.set, hk, hkj]
+
+/-- `f == nullptr` (and `nullptr == f`) holds exactly for an empty wrapper, `f != nullptr` exactly for a non-empty one; neither
+    changes anything or calls anything -/
+theorem null_comparison {s : St} (hinv : Inv s) (i : Nat) :
+    step s (.eqNull i) = .ok (s, .flag (abs s i).isNone, []) ∧ step s (.neNull i) = .ok (s, .flag (abs s i).isSome, []) := by
+  have hi := hinv.1 (.obj i)
+  constructor <;> (simp only [step, toBool, hi]; cases hm : s.mem (.obj i) <;> simp [abs, hm])
+
+example : Inv St.init ∧ (abs St.init 1).isNone = true := ⟨inv_init, rfl⟩
+
+/-! ## reference_wrapper / function_ref as objects: copy, rebinding -/
+
+/-- the pointer members the model computes by executing the history forwards designate exactly the target the
+    specification finds by resolving the history backwards from its most recent operation -/
+theorem refPtrs_designates (ops : List RefOp) (w : Nat) : refPtrs ops w = Spec.designates ops w := by
+  rw [refPtrs, Spec.designates, foldl_desFrom, desFrom_none]
+
+/-- copying a wrapper yields a wrapper that designates the same target; the source and every other wrapper are unchanged -/
+theorem ref_copy_equivalent (ops : List RefOp) (w v : Nat) :
+    refPtrs (ops ++ [.copy w v]) w = refPtrs ops v ∧ ∀ u, u ≠ w → refPtrs (ops ++ [.copy w v]) u = refPtrs ops u := by
+  simp only [refPtrs, List.foldl_append, List.foldl_cons, List.foldl_nil, refStep]
+  exact ⟨by simp, fun u hu => by simp [hu]⟩
+
+/-- assignment rebinds the assigned wrapper only: it then designates what the right-hand side designates; copies made
+    earlier keep their target -/
+theorem ref_assign_rebinds (ops : List RefOp) (w v : Nat) :
+    refPtrs (ops ++ [.assign w v]) w = refPtrs ops v ∧ ∀ u, u ≠ w → refPtrs (ops ++ [.assign w v]) u = refPtrs ops u := by
+  simp only [refPtrs, List.foldl_append, List.foldl_cons, List.foldl_nil, refStep]
+  exact ⟨by simp, fun u hu => by simp [hu]⟩
+
+/-- a call through a `reference_wrapper` object after any history of construction, copy and assignment: exactly one call, of
+    the target the wrapper designates, as an lvalue (const for `reference_wrapper<T const>`), arguments unchanged -/
+theorem refWrap_object_once (ops : List RefOp) (w tid : Nat) (cst : Bool) (args : List Arg)
+    (hd : Spec.designates ops w = some tid) :
+    ∃ out, refCallAfter ops w (fun t => refWrapCall t cst args) = .ok out ∧
+      Spec.CalledOnce tid (some (if cst then .c else .l)) args (resultOf tid (args.map (·.2))) out := by
+  rw [refCallAfter, refPtrs_designates, hd]
+  exact refWrap_once tid cst args
+
+example : Spec.designates [.bind 0 4, .bind 1 9, .assign 0 1, .copy 2 0] 2 = some 9 := by decide
+
+/-- the same for a `function_ref` object (`mk t` = the referenced entity for target `t`) -/
+theorem functionRef_object_once (ops : List RefOp) (w t : Nat) (mk : Nat → Callee) (args : List Arg) (tid : Nat)
+    (self : Option Cat) (hd : Spec.designates ops w = some t) (ht : Spec.frefTarget? (mk t) = some (tid, self)) :
+    ∃ out, refCallAfter ops w (fun t => functionRefCall (mk t) args) = .ok out ∧
+      Spec.CalledOnce tid self (args.map Spec.arrives) (resultOf tid (args.map (·.2))) out := by
+  rw [refCallAfter, refPtrs_designates, hd]
+  exact functionRef_once (mk t) args tid self ht
+
+example : Spec.designates [.bind 0 9, .bind 1 4, .assign 0 1] 0 = some 4 ∧
+    Spec.frefTarget? ((fun t => Callee.fob t .c) 4) = some (4, some .c) := by decide
+
+/-! ## pointers to members through apply / bind_front / not_fn, and the stateless not_fn -/
+
+/-- `apply(pm, t)` with a pointer to member function: one call of the member on the first tuple element, which has the
+    tuple's category, with the remaining elements in order and in the tuple's category -/
+theorem applyMember_once (mk : ObjK → Callee) (tc : Cat) (rest : List Int) (tid : Nat) (self : Option Cat)
+    (ht : Spec.target? (mk (.obj tc)) = some (tid, self)) :
+    ∃ out, applyMember mk tc rest = .ok out ∧
+      Spec.CalledOnce tid self (rest.map (fun v => (Via.fwd tc, v))) (resultOf tid rest) out := by
+  have := apply_once (mk (.obj tc)) tc rest tid self ht
+  simpa [applyMember, apply] using this
+
+example : Spec.target? ((fun o => Callee.memfn 5 o) (.obj .k)) = some (5, some .k) := rfl
+
+/-- `apply(&S::member, tuple<S>)` yields the member of the element and calls nothing -/
+theorem applyMember_data (tc : Cat) (v : Int) : applyMember (fun o => .memdata o v) tc [] = .ok (v, []) := rfl
+
+/-- `not_fn(f)(args...)` and the stateless `not_fn<f>()(args...)` for every callable `f` (function, function object, pointer
+    to member function with the object as first argument): one call of `f` as `INVOKE` prescribes, arguments unchanged, the
+    result negated -/
+theorem notFnOf_once (f : Callee) (pred : Bool) (args : List Arg) (tid : Nat) (self : Option Cat)
+    (ht : Spec.target? f = some (tid, self)) :
+    ∃ out, notFnOf f pred args = .ok out ∧ Spec.CalledOnce tid self args (!pred) out := by
+  obtain ⟨o, ho, ⟨h1, h2, _⟩⟩ := invoke_once f args tid self ht
+  refine ⟨(!pred, o.2), ?_, ⟨h1, h2, rfl⟩⟩
+  simp [notFnOf, ho, bind, Except.bind]
+
+example : Spec.target? (.memfn 11 (.obj .r)) = some (11, some .r) := rfl
+
+/-- around a pointer to data member nothing is called: the negation of the member's truth value -/
+theorem notFnOf_data (o : ObjK) (v : Int) (pred : Bool) : notFnOf (.memdata o v) pred [] = .ok (!pred, []) := rfl
+
+/-- `bind_front(pm, obj)(args...)` through a `q`-qualified wrapper: one call of the member on the stored object qualified like
+    the wrapper — or on the pointee of a stored pointer / reference_wrapper, whatever the qualification —, call arguments unchanged -/
+theorem bindFrontMember_once (mk : ObjK → Callee) (q : Cat) (o : BoundObj) (args : List Arg) (tid : Nat) (self : Option Cat)
+    (ht : Spec.target? (mk (o.expr q)) = some (tid, self)) :
+    ∃ out, bindFrontMember mk q o args = .ok out ∧ Spec.CalledOnce tid self args (resultOf tid (args.map (·.2))) out := by
+  have := bindFront_once (fun q' => mk (o.expr q')) q [] args tid self ht
+  simpa [bindFrontMember] using this
+
+example : Spec.target? ((fun k => Callee.memfn 5 k) (BoundObj.expr .k (.ptr .l))) = some (5, some .l) := rfl
+example : Spec.target? ((fun k => Callee.memfn 5 k) (BoundObj.expr .k .obj)) = some (5, some .k) := rfl
 
 end Tetl.C20.Props
